@@ -68,7 +68,9 @@ def run(r: Run):
             r.violation("neutral-inverts", {"z_sign": z > 0}, f"mass_charge_ratio/neutral_mass({float(m)}, {z}, {float(c)}) = {a}, {b}",
                         expected=ml, observed={"line": line, "mode": "poisson"})
     # 2. generators: charge z vs charge 0
-    streams = [("poisson", [(Fraction(m), n) for m in (0, 750, 1800, 5000, 100000) for n in (1, 2, 8, 40)], [CARRIERS[0]])]
+    streams = [("poisson", [(Fraction(m), n) for m in (0, 750, 1800, 5000, 100000) for n in (1, 2, 8, 40)] +
+                # ladders long / heavy enough that the Poisson terms leave the range of a double before the end
+                [(Fraction(40_000_000), 100), (Fraction(180_000), 200), (Fraction(10 ** 9), 60), (Fraction(2_260_000), 300)], [CARRIERS[0]])]
     # fine-structure expansions are exponential: only compositions with at most ~1e5 arrangements
     small = ["H2O", "C2H6S1", "Br2", "Cl2C1", "Fe2O3", "K3", "Si2Mg1O4", "Ca1Cl2"]
     streams.append(("conv", [(f, Fraction(t)) for f in small for t in (Fraction(0), Fraction(1, 10 ** 6))], CARRIERS))
